@@ -592,6 +592,12 @@ func TestCatalogue(t *testing.T) {
 		"bundle-operand":                  "declare void @g()\ndefine void @f() {\n  call void @g() [ \"x\"(i32 %nosuch) ]\n  ret void\n}\n",
 		"metadata-value-local":            "declare void @llvm.foo(metadata)\ndefine void @f() {\n  call void @llvm.foo(metadata i32 %nosuch)\n  ret void\n}\n",
 		"attribute-byval-type":            "declare void @f(i8* byval(%nosuch))\n",
+		// numbers spelled with leading zeros are decimal: `!010` is !10, so !8 / %8 / @8 are other entities
+		"padded-metadata-id-other-reading": "!named = !{!8}\n!010 = !{}\n",
+		"padded-metadata-id-duplicate":     "!named = !{!10}\n!010 = !{}\n!10 = !{}\n",
+		"padded-local-other-reading":       "define i32 @f(i32, i32, i32, i32, i32, i32, i32, i32, i32) {\n  ret i32 %010\n}\n",
+		"padded-global-other-reading":      "@0 = global i32 0\n@1 = global i32 0\n@2 = global i32 0\n@3 = global i32 0\n@4 = global i32 0\n@5 = global i32 0\n@6 = global i32 0\n@7 = global i32 0\n@8 = global i32 0\n@p = global i32* @010\n",
+		"padded-label-other-reading":       "define void @f(i32, i32, i32, i32, i32, i32, i32) {\n  br label %8\n8:\n  br label %010\n}\n",
 		"sret-type":                       "declare void @f(i8* sret(%nosuch))\n",
 	}
 	var names []string
